@@ -514,24 +514,25 @@ func mmfile() (seqs int, samples []any) {
 // ---------------------------------------------------------------------------
 // part S: concurrent allocation / free under the controlled scheduler
 
-func concJob(progs []string, cfg vsched.Config) sdrv.Job {
+func concJob(progs []string, segs int, cfg vsched.Config) sdrv.Job {
 	type obsT struct {
 		problem string
 		final   string
 	}
 	obs := &obsT{}
-	name := fmt.Sprintf("threads=%s P=%d", strings.Join(progs, "|"), cfg.P)
+	name := fmt.Sprintf("segments=%d threads=%s P=%d", segs, strings.Join(progs, "|"), cfg.P)
 	scenario := func() {
 		*obs = obsT{}
 		const bs = 1
-		buf := gbytes.NewInMemBytes(int(segSize(bs)))
+		buf := gbytes.NewInMemBytes(int(segSize(bs)) * segs)
 		b, err := gbytes.NewBlocks(bs, buf, true)
 		if err != nil {
 			panic(err)
 		}
-		// pre-allocate 6 of 8 blocks so that threads collide on the last two
+		// pre-allocate all but two blocks so that threads collide on the last two (with 2 segments the first
+		// segment is full and the free hint points into the second one; frees hit the first segment)
 		pre := map[int]bool{}
-		for i := 0; i < 6; i++ {
+		for i := 0; i < 8*segs-2; i++ {
 			k, _ := b.ArrangeBlock()
 			pre[k] = true
 		}
@@ -558,7 +559,7 @@ func concJob(progs []string, cfg vsched.Config) sdrv.Job {
 			}
 			allocated := 0
 			for i := 0; i < b2.Count(); i++ {
-				hb := all[i/8]
+				hb := all[int64(i/8)*segSize(bs)+int64(i%8)/8]
 				if hb&(1<<uint(i%8)) != 0 {
 					allocated++
 					if _, ok := held[i]; !ok && inflightAlloc == 0 {
@@ -605,7 +606,7 @@ func concJob(progs []string, cfg vsched.Config) sdrv.Job {
 							mine = mine[1:]
 						} else {
 							i = -1
-							for k := 0; k < 8; k++ {
+							for k := 0; k < 8*segs; k++ {
 								if held[k] == 100 {
 									i = k
 									break
@@ -700,7 +701,8 @@ func main() {
 	two := []string{"A", "F", "AA", "AF", "FA", "FF", "AFA"}
 	for _, a := range two {
 		for _, b := range two {
-			jobs = append(jobs, concJob([]string{a, b}, vsched.Config{P: P, Preempt: fine, MaxSteps: 4000}))
+			jobs = append(jobs, concJob([]string{a, b}, 1, vsched.Config{P: P, Preempt: fine, MaxSteps: 4000}))
+			jobs = append(jobs, concJob([]string{a, b}, 2, vsched.Config{P: P - 1, Preempt: fine, MaxSteps: 4000}))
 		}
 	}
 	three := []string{"A", "F", "AF"}
@@ -710,7 +712,7 @@ func main() {
 	for _, a := range three {
 		for _, b := range three {
 			for _, c := range three {
-				jobs = append(jobs, concJob([]string{a, b, c}, vsched.Config{P: 2, Preempt: fine, MaxSteps: 4000}))
+				jobs = append(jobs, concJob([]string{a, b, c}, 1, vsched.Config{P: 2, Preempt: fine, MaxSteps: 4000}))
 			}
 		}
 	}
